@@ -198,6 +198,7 @@ struct AlphaOpts
   {
     AlphaOpts o = full();
     o.thetas    = thetas_dense();
+    o.tmags     = {0, 1e-6, 1e-3, 1, 1e3};  // incl. a small non-zero translation-like magnitude ("treated as zero" case splits)
     return o;
   }
   /// every stratum once: for pair / triple products
@@ -370,6 +371,22 @@ std::vector<Elem<R>> elements(const AlphaOpts & o)
     e.rot = t.rot;
     e.tm  = t.tm;
     es.push_back(e);
+  }
+  // exact special elements: near a half / quarter turn the computed coefficients contain values like sin(pi) = 1.2e-16; a user
+  // can also hold the exact ones (SO2(0,-1), a product of two exact quarter turns, an isometry with R = -I). For every element
+  // that has a coefficient of magnitude <= 4e-16 add copies with those coefficients snapped to +0 and to -0.
+  const size_t n0 = es.size();
+  for (size_t k = 0; k < n0; ++k) {
+    bool any = false;
+    for (auto v : es[k].c)
+      if (v != 0 && std::fabs(v) <= 4e-16L) any = true;
+    if (!any) continue;
+    for (int sgn = 0; sgn < 2; ++sgn) {
+      Elem<R> e = es[k];
+      for (auto & v : e.c)
+        if (std::fabs(v) <= 4e-16L) v = sgn ? -0.0L : 0.0L;
+      es.push_back(e);
+    }
   }
   return es;
 }
